@@ -146,10 +146,13 @@ CHECKS = {
         text='Lean 4 theorems: an accepted node consumes at least one token (consumes); for every grammar whose head-symbol relation is ranked (no left recursion) the token-set '
              'interpreter never exhausts a recursion depth of |tokens|*(R+1)+rank (no_depth, double induction on depth and position); the rank table of the grammar of this run is '
              'regenerated from the source and checked by decide (generated_rank_check, rankOK_of_check), giving parse_total: AstBuilder.parse on ANY token list either accepts '
-             'the whole list or raises the parser exception, within depth 6n+6. Together with C05 (no None escapes, nothing truncated) this is the model-level totality of parsing. '
+             'the whole list or raises the parser exception, within depth 6n+6; the lexer model ends on EVERY text with tokens or one of its two parser exceptions - every scanner '
+             'consumes at least one character, the loop neither spins nor exhausts its fuel (lexer_ends, generated_lexer_table_ok on the regenerated table) - so text -> tree '
+             'is total (front_end_total). Together with C05 (no None escapes, nothing truncated) this is the model-level totality of lexing + parsing. '
              'The remaining clauses are measured on the real code: outcome classes of translate / compile / exec / evaluate over grammar-derived formulas, mutants and an '
              'adversarial list (no foreign exception, no class that fails to load, titles and sizes carried, constants evaluate to the stored value), a step counter on '
-             'CompositeBaseToken._get against |classes|*(n+1), wall-clock bounds, dependency chains to 2000 cells through the facade, class_file vs class_object.',
+             'CompositeBaseToken._get against |classes|*(n+1), wall-clock bounds, dependency chains to 2000 cells through the facade, class_file vs class_object; brackets / operator chains / signs / percents / nested functions / '
+             'argument lists of 30..3000 elements and literals of up to 100000 characters through the facade in a worker process with a 60 s limit.',
         note='Partial: "never hangs" is a runtime fact - termination and a depth bound are proved for the parser model, parse steps and time are measured; the translators (one per '
              'function) are exercised, not modelled: that none of them raises a foreign exception is established by the outcome-class sweep over the grammar-derived inputs only. '
              'Exceptions at EVALUATION of a member (text arithmetic, 1/0, wrong argument types) are results of the formula and are not counted.',
@@ -170,11 +173,17 @@ CHECKS = {
              'matrix_row_length, matrix_entry, matrix_flatten); a cell inside the read data is the stored value, cells beyond it read as blank (fetch_spec, fetch_outside); a '
              'whole-column area spans every row of the sheet (whole_columns_rows); no prefix means the formula\'s own sheet, an unknown title is rejected, a resolved title is that '
              'title (own_sheet_default, unknown_title_rejected, known_title_resolves); quoting then unquoting a title is the identity for every title (unquote_quote); column '
-             'letters <-> numbers are inverse for every column (col_roundtrip, both directions, unbounded); distinct coordinates have distinct method names (uid_injective). '
+             'letters <-> numbers are inverse for every column (col_roundtrip, both directions, unbounded); distinct coordinates have distinct method names (uid_injective); '
+             'every way of WRITING a reference is read back as written by the scanners of the reference tokens: any prefix form (none / Title! / quoted with doubled apostrophes, any '
+             'characters), any $ markers, any column letters and row digits, whatever admissible text follows (cell_reference_read_back), and the same for rectangles, row / '
+             'column ranges and whole-column areas (area_reference_read_back); the scanners are the ones of this run (reference_regexes_pinned on the regenerated regex sources). '
              'Tie B: workbooks whose cells encode their coordinates, 2-5 sheets with hostile titles in random order, every reference form / $ form / prefix form, columns to XFD, '
-             'rows to 5 digits, areas beyond the used range, whole columns, wrapped in SUM / COUNT / INDEX, unknown titles: values vs the model and vs an independent decode.',
-        note='Trusted: Lean kernel; standard axioms; the regexes that lex a reference spelling are not modelled (scan_spelling of the design is not proved): a spelling is tied to its '
-             'coordinates only by the end-to-end sweep; openpyxl column_index_from_string is an external validated exhaustively (C14).',
+             'rows to 5 digits, areas beyond the used range, whole columns, wrapped in SUM / COUNT / INDEX, the same bare text on several sheets, unknown titles; three routes per '
+             'formula (class of its own cell / class of the whole workbook / whole workbook with overridden cells): values vs the model and vs an independent decode; '
+             '<class>.get of the three reference tokens vs the Lean scanners on spellings and near misses.',
+        note='Trusted: Lean kernel; standard axioms; the hand-written scanners of the three reference regexes (backtracking order modelled by hand, pinned to the regex sources, '
+             'compared with <class>.get on generated texts; no read-back theorem for CellIdentifierRangeToken, which Lexer.TOKENS order shadows by the matrix token); \\w and \\d are '
+             'modelled on ASCII + Cyrillic letters; openpyxl column_index_from_string is an external validated exhaustively (C14).',
         technique='Lean 4 proof over hand model + differential correspondence + independent coordinate-decoding oracle', design='5/C02'),
     'C19': dict(
         text='Lean 4 theorems over a scanner model of the two regexes of _get_suspicious_constructions, the report key and the gate: every reported fragment is call syntax '
